@@ -123,13 +123,13 @@ def queries():
     for (u, e), n in sorted(NAMES.items()):
         for tier, k in ((("quick" if n in QUICK_UNITS else "thorough"), QUICK_UNITS.get(n, KQ[n])),):
             qs.append(Q("parse-%s-k%d" % (n, k), "C13_parse.c", COMMON + UNITS[u], env=ENV,
-                        defs={"UNIT": u, "ENTRY": e, "VERIF_YAML_K": k, "VERIF_GARRAY_CAP": 12, **({"NO_STATE_FREE": None} if n in LIGHT else {}),
+                        defs={"UNIT": u, "ENTRY": e, "VERIF_YAML_K": k, "VERIF_GARRAY_CAP": 12, **({"NO_STATE_FREE": None} if n in LIGHT else {}), **({"NO_FINAL_FREE": None} if (tier == "quick" and n not in LIGHT) else {}),
                               "DICT": ",".join('"%s"' % w for w in DICTS[n]),
                               "VERIF_YAML_WORDMAX": max(len(w) for w in DICTS[n])},
                         unwind=max(k + 3, len(DICTS[n]) + 2),
                         unwindset=["%s:%d" % (l, max(len(w) for w in DICTS[n] + ["cfg/"]) + 2) for l in
                                    ("strcmp.0", "strlen.0", "g_string_new.0", "strdup.0", "verif_yaml_word.1", "strtol.1")] +
                                   ["strtol.0:3", "bidib_string_to_uid.0:9"],
-                        leak=(n not in LIGHT), tier=tier, timeout=None if tier == "quick" else 1750, required=(tier == "quick"),
+                        leak=(n not in LIGHT and tier != "quick"), tier=tier, timeout=None if tier == "quick" else 1750, required=(tier == "quick"),
                         note="arbitrary well-nested event sequences" + ("" if tier == "quick" else " (stretch)")))
     return qs
